@@ -21,6 +21,9 @@ type LockStep struct {
 	Defs   *schema.Definitions
 	Vars   map[string]any
 	Answer func(id string, visit int, vars map[string]any) map[string]any
+	// Exit tells which tasks are answered with an error and a handler in exit mode: the token
+	// ends there (one task-error trace is expected).
+	Exit func(id string) bool
 	// MaxAnswers bounds the number of answers (loops); 0 = 64.
 	MaxAnswers int
 	Open       OpenOpts
@@ -363,13 +366,22 @@ func (ls *LockStep) Body() func() {
 						break
 					}
 				}
+				if ls.Exit != nil && ls.Exit(id) {
+					mm.Drop(idx)
+					mm.Errs = append(mm.Errs, "task:"+id)
+					continue
+				}
 				if ls.Answer != nil && res == nil {
 					res = ls.Answer(id, mm.Pending[idx].Visit, mm.Vars)
 				}
 				mm.Answer(idx, res)
 			}
 			history = append(history, id)
-			if res != nil {
+			if ls.Exit != nil && ls.Exit(id) {
+				hch := make(chan bpmn.ErrHandler, 1)
+				hch <- bpmn.ErrHandler{Mode: bpmn.ExitMode}
+				r.Answer(pt, bpmn.DoWithErrHandle(fmt.Errorf("exit"), hch))
+			} else if res != nil {
 				r.Answer(pt, bpmn.DoWithResults(res))
 			} else {
 				r.Answer(pt)
